@@ -1,7 +1,7 @@
 #!/usr/bin/env python3
 """Run the checks against a seeded change (seeded/<name>/patch.diff) and record what caught it.
 
-usage: tools/run_seeded.py [--scratch] [--record] <name>|--all [property ids...]
+usage: tools/run_seeded.py [--scratch] [--record] [--refactors] <name>|--all [property ids...]
          (default property: the one in seeded/<name>/meta.json)
 
 default   : apply the patch to /repo (git -C /repo apply), run the checks, undo it (git -C /repo checkout -- .)
@@ -16,11 +16,12 @@ V = os.path.dirname(os.path.dirname(os.path.abspath(__file__)))
 args = sys.argv[1:]
 scratch = "--scratch" in args
 record = "--record" in args
-args = [a for a in args if a not in ("--scratch", "--record")]
+SET = "refactors" if "--refactors" in args else "seeded"   # refactors/: behaviour-preserving changes, expected exit 0
+args = [a for a in args if a not in ("--scratch", "--record", "--refactors")]
 if not args:
     sys.exit(__doc__)
-names = sorted(os.listdir(os.path.join(V, "seeded"))) if args[0] == "--all" else [args[0]]
-names = [n for n in names if os.path.exists(os.path.join(V, "seeded", n, "patch.diff"))]
+names = sorted(os.listdir(os.path.join(V, SET))) if args[0] == "--all" else [args[0]]
+names = [n for n in names if os.path.exists(os.path.join(V, SET, n, "patch.diff"))]
 want = args[1:]
 EV = os.path.join(V, "build", "seeded-evidence")
 os.makedirs(EV, exist_ok=True)
@@ -28,9 +29,9 @@ SCR = "/tmp/repo_seeded_%d" % os.getpid()
 
 
 def run_one(name):
-    d = os.path.join(V, "seeded", name)
+    d = os.path.join(V, SET, name)
     meta = json.load(open(os.path.join(d, "meta.json"))) if os.path.exists(os.path.join(d, "meta.json")) else {}
-    props = want or [meta.get("property")]
+    props = want or meta.get("properties") or [meta.get("property")]
     if scratch:
         subprocess.run(["git", "-C", "/repo", "worktree", "add", "--detach", SCR, "HEAD"], check=True,
                        capture_output=True)
